@@ -721,7 +721,7 @@ pub fn check_merge(mc: &MergeCase, st: &mut Stats) -> Option<(String, String)> {
 }
 
 fn specs(thorough: bool) -> Vec<Spec> {
-    let ns: Vec<u32> = if thorough { vec![0, 1, 2, 63, 64, 65, 511, 512, 513, 1025, 5119, 5120, 5121, 10_240, 65_535, 65_536, 65_537, 70_000] } else { vec![0, 1, 2, 63, 64, 65, 511, 512, 513, 1025, 10_240, 65_536, 70_000] };
+    let ns: Vec<u32> = if thorough { vec![0, 1, 2, 63, 64, 65, 127, 128, 129, 511, 512, 513, 1025, 4095, 4096, 4097, 5119, 5120, 5121, 10_240, 65_535, 65_536, 65_537, 70_000] } else { vec![0, 1, 2, 63, 64, 65, 511, 512, 513, 1025, 10_240, 65_536, 70_000] };
     let small_pres = vec![Presence::All, Presence::None, Presence::Every(2), Presence::Every(3), Presence::Every(64), Presence::FirstHalf, Presence::LastOnly, Presence::Multi];
     let valfns = [ValFn::Constant, ValFn::Linear, ValFn::LinearOutlier, ValFn::TwoLevel, ValFn::Lcg, ValFn::Gcd, ValFn::Extremes, ValFn::Wide32];
     let tys = [Ty::U64, Ty::I64, Ty::F64, Ty::Bool, Ty::Date, Ty::Ip, Ty::Bytes, Ty::Str];
@@ -730,7 +730,8 @@ fn specs(thorough: bool) -> Vec<Spec> {
         for &p in &small_pres {
             for &f in &valfns {
                 for &ty in &tys {
-                    let big = n > 513;
+                    // (thorough: the full value-function x type product up to 10240 rows)
+                    let big = if thorough { n > 10_240 } else { n > 513 };
                     if big {
                         // reduced value set above 513 rows
                         let keep = matches!((f, ty), (ValFn::Linear, Ty::U64) | (ValFn::Lcg, Ty::I64) | (ValFn::Wide32, Ty::U64) | (ValFn::TwoLevel, Ty::Str) | (ValFn::Lcg, Ty::F64) | (ValFn::Extremes, Ty::Ip) | (ValFn::Gcd, Ty::Date));
